@@ -1,4 +1,5 @@
 """C03 - Generated dependency graph equals the graph the build script describes."""
+import io
 import os
 import random
 import re
@@ -28,7 +29,14 @@ RULE = ('generated projects (static/shared/dual libraries, executables using the
         'scripts (half of them a 2-3-output build_step with 1-3 build_step / copy_file consumers and the session make, make, touch a source, '
         'make, make; the others compile / link / command / build_step with 1-3 outputs, copy_file) turned into walk-semantics rules by EmitStamp.xsem_steps '
         'for fx in {false, true}, lag in {0, 1}; in GNU Make vs StampSem.dmake: per make the real recipes run, the no-op recipes run '
-        '(make --trace) and the exit status. System scenario, always run: 2-output build_step from gen.in with one consumer step per '
+        '(make --trace) and the exit status; (c) FAILING steps (Graph/StampFail.v fmake, recipes as lists of command lines): the witness '
+        'rules of C03_failed_step_recovers / C03_touch_before_command_refuted, the graphs of (a) and the rule sets of (b), each with the '
+        'recipes StampFail.cmds_of gives them - stamp recipe [command; touch $@] (as emitted) or [touch $@; command] (the refuted order), '
+        'single-output rules [command] - written line by line into a real Makefile; session: make, then 1-2 times (touch a source, a make in '
+        'which the own command of one randomly chosen step exits 1 writing nothing, 1-2 makes in which nothing fails); per make the steps '
+        'whose command succeeded, the command-less recipes run, the exit status; the harness itself checks that GNU Make ran nothing after '
+        'the failing recipe. W:emit also compares, per registered Make rule, the ORDER of the recipe lines (touch $@ / no-op / command lines, '
+        'rendered by the real Writer.write_shell) with Emit.emit_make_recipes false. System scenario, always run: 2-output build_step from gen.in with one consumer step per '
         'output, real configure + make: build, no-op build, touch gen.in + build (step and both consumers re-created), no-op build. '
         'Dependency-shape projects (projgen.generate_graph): every output named, declared DAG next to '
         'the script; emitted edges of both backends vs the DAG, then touch of every source and of half the intermediates with real make')
@@ -36,6 +44,10 @@ TRUSTED = ('mtime build semantics: the real GNU Make 4.3 (system level); Make/Ma
            'Graph/StampSem.v dmake (depth-first walk with cached mtimes; recipe kinds none / real / no-op, lag of the stamp) validated '
            'against GNU Make 4.3 on this run (R:stampsem, both rule shapes); which no-op recipes Make ran is read from make --trace '
            '("update target ... due to" / "target ... does not exist"), cross-checked on the real recipes against their own log',
+           'Graph/StampFail.v fmake (the same walk with recipes as command-line lists and an oracle of failing steps; GNU Make without -k '
+           'stops at the first failing line, deletes nothing, builds nothing further) validated against GNU Make 4.3 on this run (R:stampsem '
+           '(c)); assumption about the tools, explicit in the model: the own command of a step either writes all its outputs and succeeds or '
+           'writes nothing and fails (the stub command of the validation and bin/argvrec of the system histories behave so)',
            'variant detection: the probe (harness/c03.py stamp_variant) runs the real build_step builtin and the real Make rule handler '
            'of the tree under test and reads Makefile._rules; a failing probe is reported, not assumed',
            'emitter model: an Edge is abstracted to its attribute dump (abstract_step); the spelling of .stamp / .dir names is '
@@ -495,6 +507,24 @@ def stage_w_emit(rep, rng, n, tag='W:emit'):
         return [[[nm.key(t) for t in r.targets], [nm.key(d) for d in r.deps], [nm.key(o) for o in r.order_only],
                  bool(r.recipe), bool(r.phony)] for r in rs]
 
+    def recipe_kinds(mk, r):
+        """The recipe of a real Rule as the ordered list of its lines: 1 = touch $@, 2 = the no-op '@:', 0 = a command
+        line of the step itself (consecutive command lines count once).  Rendered by the real Writer.write_shell."""
+        from bfg9000.backends.make import syntax as msyn
+        if r.recipe is None:
+            return []
+        lines = [r.recipe] if isinstance(r.recipe, msyn.Entity) else list(r.recipe)
+        kinds = []
+        for cmd in lines:
+            out = mk.writer(io.StringIO())
+            out.write_shell(cmd)
+            text = out.stream.getvalue().strip()
+            k = 1 if re.fullmatch(r'@?touch\s+(["\']?)\$[@]\1', text) else 2 if text == '@:' else 0
+            if k == 0 and kinds and kinds[-1] == 0:
+                continue
+            kinds.append(k)
+        return kinds
+
     def nbuilds(bs, nm):
         return [[[nm.key(o) for o in b.outputs], b.rule == 'phony', [nm.key(i) for i in b.inputs],
                  [nm.key(i) for i in b.implicit], [nm.key(o) for o in b.order_only]] for b in bs]
@@ -532,6 +562,12 @@ def stage_w_emit(rep, rng, n, tag='W:emit'):
             calls.append(('emit.make_step', [fx, st])); impl.append(real_m); metas.append(nm)
             calls.append(('emit.ninja_step', [has, st])); impl.append([real_n, nj.has_build('PHONY')]); metas.append(nm)
             calls.append(('emit.step_info', [st])); impl.append([True, None]); metas.append(nm)
+            # the ORDER of the recipe lines of every rule the step registered (touch $@ after the command lines):
+            # Emit.emit_make_recipes with tb = false, the order C03_failed_step_recovers is proved for
+            rk = [recipe_kinds(mk, r) for r in mk._rules[n0:]]
+            calls.append(('emit.make_recipes', [False, fx, st])); impl.append(rk); metas.append(nm)
+            if len(e.output) > 1:
+                rep.count('w-emit:recipe order of a multi-output step = %r' % (rk,))
             kind = type(e).__name__
             rep.count('w-emit:' + kind)
             rep.case('emit:%s:%r' % (kind, st), len(e.output) > 1 or bool(e.extra_deps))
@@ -653,6 +689,8 @@ def stage_w_emit(rep, rng, n, tag='W:emit'):
             mv = [[dnodes(nm, x[0]), x[1] != 0, dnodes(nm, x[2]), dnodes(nm, x[3]), dnodes(nm, x[4])] for x in r]
         elif name == 'emit.step_info':
             mv = [r[0] != 0, None]            # the shape guard of the theorems holds for every real edge
+        elif name == 'emit.make_recipes':
+            mv = None if not r else [list(x) for x in r[0]]
         else:
             mv = [nm.node([0, x]) for x in r]
         if mv != iv:
@@ -682,7 +720,31 @@ for f in "$@"; do touch -d "@$n" "$f"; done
 if [ "$phony" = 0 ]; then touch -d "@$((n+lag))" "$t"; fi
 echo $((n+lag+1)) > ctr
 '''
+XLINE_SH = '''#!/bin/sh
+# xline.sh kind last lag phony target also... : ONE line of a recipe given as a list of command lines (Graph/StampFail.v)
+#   kind 0 = the step's own command: fails (exit 1, writes nothing, noted in attempts) when the target is listed in $XFAIL;
+#            otherwise writes its outputs (the also-files; the target itself when there are none) with the clock value n
+#            and logs the target;  kind 1 = touch $@ (clock value n);  kind 2 = the no-op
+#   the clock advances by lag between two lines, and by 1 after a last line that is not the no-op
+kind=$1; last=$2; lag=$3; phony=$4; t=$5
+shift 5
+n=$(cat ctr)
+case $kind in
+  0) case " $XFAIL " in *" $t "*) echo "$t" >> attempts; exit 1;; esac
+     if [ "$phony" = 0 ] && [ $# = 0 ]; then touch -d "@$n" "$t"; fi
+     for f in "$@"; do touch -d "@$n" "$f"; done
+     echo "$t" >> log ;;
+  1) if [ "$phony" = 0 ]; then touch -d "@$n" "$t"; fi ;;
+  2) : ;;
+esac
+if [ "$last" = 1 ]; then
+  if [ "$kind" != 2 ]; then echo $((n+1)) > ctr; fi
+else
+  echo $((n+lag)) > ctr
+fi
+'''
 R_NONE, R_REAL, R_NOOP = 0, 1, 2
+C_STEP, C_TOUCH, C_NOOP = 0, 1, 2
 TRACE_RE = re.compile(r"^Makefile:\d+: (?:update target 'f(\d+)' due to: .*|target 'f(\d+)' does not exist)$")
 
 
@@ -806,19 +868,37 @@ def session_ops(rng, rep, sources, outs, stamps):
     return ops
 
 
-def real_make_session(d, rules, goals, fs0, clk, ops):
+def real_make_session(d, rules, goals, fs0, clk, ops, recipes=None):
     """The session in the real GNU Make: per make [targets whose real recipe ran (written by the recipe itself), targets
-    whose no-op recipe '@:' ran (make --trace announces every target it is about to run the recipe of), failed]."""
+    whose no-op recipe '@:' ran (make --trace announces every target it is about to run the recipe of), failed].
+    With recipes = {target: [command line kinds]} every recipe is written as that list of lines (one xline.sh call per
+    line, C_STEP / C_TOUCH / C_NOOP), and op [3, t] is a make in which the own command of rule t fails (exit status 1,
+    nothing written): per make [targets whose own command ran and succeeded, targets whose recipe ran and has no own
+    command, make exited with an error]."""
     sub = os.path.join(d, 'g')
     shutil.rmtree(sub, ignore_errors=True)
     os.makedirs(sub)
     with open(os.path.join(sub, 'xstamp.sh'), 'w') as f:
         f.write(XSTAMP_SH)
+    with open(os.path.join(sub, 'xline.sh'), 'w') as f:
+        f.write(XLINE_SH)
     mk = ['all:' + ''.join(' f%d' % g for g in goals)]
     noop, realr = set(), set()
     for t, prs, oo, recipe, phony, also, lag in rules:
         mk.append('f%d:%s%s' % (t, ''.join(' f%d' % p for p in prs), (' |' + ''.join(' f%d' % p for p in oo)) if oo else ''))
-        if recipe == R_REAL:
+        if recipes is not None:
+            cs = recipes.get(t, [])
+            for i, k in enumerate(cs):
+                if cs == [C_NOOP]:
+                    mk.append('\t@:')          # the line multitarget_rule writes
+                    continue
+                mk.append('\t@sh xline.sh %d %d %d %d $@%s' % (k, 1 if i == len(cs) - 1 else 0, lag, 1 if phony else 0,
+                                                              ''.join(' f%d' % a for a in also)))
+            if C_STEP in cs:
+                realr.add(t)
+            elif cs:
+                noop.add(t)
+        elif recipe == R_REAL:
             mk.append('\t@sh xstamp.sh %d %d $@%s' % (lag, 1 if phony else 0, ''.join(' f%d' % a for a in also)))
             realr.add(t)
         elif recipe == R_NOOP:
@@ -836,12 +916,23 @@ def real_make_session(d, rules, goals, fs0, clk, ops):
         f.write('%d\n' % clk)
     res = []
     for op, x in ops:
-        if op == 0:
+        if op in (0, 3):
             open(os.path.join(sub, 'log'), 'w').close()
-            p = subprocess.run(['make', '-rR', '--trace'], cwd=sub, capture_output=True, text=True, timeout=60, env=common.impl_env())
+            open(os.path.join(sub, 'attempts'), 'w').close()
+            env = common.impl_env()
+            env['XFAIL'] = ('f%d' % x) if op == 3 else ''
+            p = subprocess.run(['make', '-rR', '--trace'], cwd=sub, capture_output=True, text=True, timeout=60, env=env)
             log = [int(w[1:]) for w in open(os.path.join(sub, 'log')).read().split()]
+            attempts = [int(w[1:]) for w in open(os.path.join(sub, 'attempts')).read().split()]
             announced = [int(m.group(1) or m.group(2)) for m in map(TRACE_RE.match, p.stdout.split('\n')) if m]
-            if [t for t in announced if t in realr] != log:
+            if (recipes is not None and len(attempts) > 1) or bool(attempts) != (p.returncode != 0 and 'Error 1' in p.stderr) \
+                    and recipes is not None:
+                # GNU Make without -k: exactly one recipe fails, and then make exits with an error
+                raise RuntimeError('make ran on after a failed recipe, or failed for another reason: failed commands %r, status %d\n%s' % (
+                    attempts, p.returncode, (p.stdout + p.stderr)[-1500:]))
+            if recipes is not None and attempts and announced[-1:] != attempts:
+                raise RuntimeError('make announced further recipes after the failing one: %r, failed %r' % (announced, attempts))
+            if [t for t in announced if t in realr] != log + ([] if recipes is None else [a for a in attempts if a not in log]):
                 # the two observation channels must tell the same story about the real recipes
                 raise RuntimeError('make --trace announces the recipes of %r, the recipes themselves logged %r\n%s' % (
                     announced, log, p.stdout[-1500:]))
@@ -919,6 +1010,59 @@ def stage_r_stampsem(rep, rng, n):
             calls.append(('stamp.session', [xrules, goals, fs0, 1000, ops]))
             real.append(real_make_session(d, xrules, goals, fs0, 1000, ops))
             rep.case('stampsem-x:%r' % ([arg, ops],), True)
+        # (c) FAILING recipes (Graph/StampFail.v fmake): recipes as lists of command lines, a make in which one step's own
+        # command fails (GNU Make without -k), then makes in which nothing fails - for single-output rules and for
+        # both orders of the stamp recipe ([command; touch $@] as emitted, [touch $@; command] the refuted one)
+        frules = [(ex_stamp_rules(R_NOOP, 1), [20, 21], [[1, 5]], [[0, 0], [1, 1], [3, 12], [0, 0], [0, 0]], False),
+                  (ex_stamp_rules(R_NOOP, 1), [20, 21], [[1, 5]], [[0, 0], [1, 1], [3, 12], [0, 0], [0, 0]], True),
+                  (ex_stamp_rules(R_NOOP, 1), [20, 21], [[1, 5]], [[0, 0], [1, 1], [3, 20], [0, 0], [0, 0]], False)]
+        for i in range(n // 2):
+            rules, goals, fs0, _ = gen_stamp_graph(rng, rep)
+            frules.append((rules, goals, fs0, None, rng.random() < 0.4))
+        for (name, arg), r, foc in zip(xcalls, xraw, focused):
+            xrules, goals = r
+            if xrules:
+                targets = set(x[0] for x in xrules)
+                sources = sorted(set(p for x in xrules for p in x[1] + x[2]) - targets)
+                frules.append(([list(x) for x in xrules], list(goals), [[s, 100 + 2 * j] for j, s in enumerate(sources)], None,
+                               rng.random() < 0.3))
+        craw = common.model_batch([('stamp.cmds_of', [tb, rules]) for rules, _, _, _, tb in frules])
+        nfail = 0
+        for (rules, goals, fs0, ops, tb), cs in zip(frules, craw):
+            recipes = {x[0]: list(c) for x, c in zip(rules, cs)}
+            steps_ = [t for t, c in recipes.items() if C_STEP in c]
+            targets = set(x[0] for x in rules)
+            sources = sorted(set(p for x in rules for p in x[1] + x[2]) - targets)
+            if ops is None:
+                ops = [[0, 0]]
+                for _ in range(rng.randint(1, 2)):
+                    ops.append([1, rng.choice(sources)])
+                    ops.append([3, rng.choice(steps_)])
+                    ops.append([0, 0])
+                    if rng.random() < 0.6:
+                        ops.append([0, 0])
+            shape = 'single-output rules only' if not any(x[5] for x in rules) else \
+                'stamp recipe [touch; command]' if tb else 'stamp recipe [command; touch]'
+            rep.count('stampsem-f:failing-step session, %s' % shape)
+            also_of = {x[0]: x[5] for x in rules}
+            for op_, t_ in ops:
+                if op_ == 3:
+                    rep.count('stampsem-f:the failing step is %s' % ('a stamp rule' if also_of.get(t_) else 'a single-output rule'))
+            calls.append(('stamp.fsession', [rules, goals, fs0, 1000, ops, [[t, c] for t, c in sorted(recipes.items())]]))
+            real.append(real_make_session(d, rules, goals, fs0, 1000, ops, recipes=recipes))
+            nfail += sum(1 for r_ in real[-1] if r_[2])
+            rep.case('stampsem-f:%r' % ([rules, goals, ops, tb],), True)
+        rep.count('stampsem-f:makes that stopped at a failing step = %d' % nfail)
+        nf0 = len(calls) - len(frules)
+        # the theorems as GNU Make sees them: command first - the failed step and everything after it re-run in the next
+        # make; touch first - the next make does nothing and reports success (C03_touch_before_command_refuted)
+        wantf = [[[12, 20, 21], False], [[], True], [[12, 20, 21], False], [[], False]]
+        wantt = [[[12, 20, 21], False], [[], True], [[], False], [[], False]]
+        wantm = [[[12, 20, 21], False], [[12], True], [[20, 21], False], [[], False]]
+        gotw = [[[r_[0], r_[2]] for r_ in real[nf0 + j]] for j in range(3)]
+        if gotw != [wantf, wantt, wantm]:
+            rep.fail('R:stampsem - GNU Make does not behave as C03_failed_step_recovers / C03_touch_before_command_refuted state on '
+                     'the witness rules: %r' % (gotw,), {'obligation': 'R:stampsem failing-step witnesses', 'make': gotw}, found_input=False)
         rep.sample({'stage': 'R:stampsem', 'rules [target, prereqs, order, recipe 0 none/1 real/2 no-op, phony, also, lag]': calls[1][1][0],
                     'goals': calls[1][1][1], 'ops': calls[1][1][4], 'make [steps run, no-op recipes run, failed]': real[1]})
         raw = common.model_batch(calls)
@@ -929,7 +1073,8 @@ def stage_r_stampsem(rep, rng, n):
                 dis.append((i, (name, arg), iv, mv))
         nx = min(4, len(xcalls))
         nvm, ok, detail = common.vm_crosscheck(calls[:8] + xcalls[:nx] + calls[-4:], raw[:8] + xraw[:nx] + raw[-4:], limit=16)
-        rep.stage('R:stampsem (dmake vs GNU Make)', cases=len(calls), from_abstract_scripts=len(calls) - max(n, len(fixed)),
+        rep.stage('R:stampsem (dmake / fmake vs GNU Make)', cases=len(calls), from_abstract_scripts=len(calls) - len(frules) - max(n, len(fixed)),
+                  failing_step_sessions=len(frules), makes_stopped_at_a_failing_step=nfail,
                   disagreements=len(dis), vm_compute_rechecked=nvm, vm_agrees=ok)
         if not ok:
             rep.fail('extraction glue: ' + detail, {'obligation': 'vm_compute == extracted model', 'detail': detail}, found_input=False)
